@@ -19,7 +19,10 @@ CONSTANTS
   DevWriteLock = FALSE
   DevRouteFirst = FALSE
   DevCleanupFirst = FALSE
-  DevLegRegistered = FALSE
+  RegLegs = {}
+  DevIdleSweep = FALSE
+  DevFwdNoEof = FALSE
+  SrcKinds = {"direct"}
   DevBufio = FALSE
   AttachKinds = {"local"}
   HoldOn = FALSE
